@@ -57,4 +57,16 @@ CLAIMED['C04'] = dict(
          'thread pointers are represented as pool indices.',
     technique='deductive verification: loop-free full-domain CBMC harnesses on mechanically lowered real code; bounded CBMC for the heap; native replay',
     design='§6 C04')
+CLAIMED['C18'] = dict(
+    text='Proof (all 64-bit offsets/lengths incl. saturating ends, any number of held ranges): range_t::end/operator</contains, '
+         'try_lock_wait, try_lock_wait2, adjust_range, next_offset, prev_end are lowered from /repo on every run.  Order lemmas: for '
+         'non-empty denotations exactly one of a<b, b<a, overlap holds, < is irreflexive and transitive.  Critical sections (they run '
+         'under m_lock, hence sequentially): a granted range overlaps no held range and keeps the set ordered; a request overlapping a held '
+         'range is never granted and waits once; adjust_range succeeds only if the new range overlaps no other holder and keeps the order, '
+         'and changes nothing when refused.',
+    note=TRUST + ' std::set is modelled as a sorted array with assumed lower_bound/emplace_hint/erase contracts; the set invariant is used at '
+         'ghost-index instances.  Not decided: a waiter is woken when the conflicting range is unlocked and eventually acquires (condition '
+         'variable + scheduler); unlock(offset,length) erase loop; held empty ranges.',
+    technique='deductive verification: loop-free full-domain CBMC harnesses (ghost-index set invariant) on mechanically lowered real code',
+    design='§6 C18')
 NA = {}
